@@ -89,6 +89,17 @@ static std::string escapeAttributeValue(const std::string &value)
         case '"':
             escaped += "&quot;";
             break;
+        case '\t':
+            // A literal tab, line feed or carriage return in an attribute value is read back as a space
+            // (attribute-value normalisation), a character reference is not.
+            escaped += "&#9;";
+            break;
+        case '\n':
+            escaped += "&#10;";
+            break;
+        case '\r':
+            escaped += "&#13;";
+            break;
         default:
             escaped += c;
             break;
